@@ -218,9 +218,32 @@ func EnumPathsOpt(from *ssa.BasicBlock, stop func(*ssa.BasicBlock) bool, limit i
 				}
 				atoms = append(atoms, a)
 			}
+			// A branch on a boolean φ (a hoisted `ok := a && b`) whose value
+			// along this path is the non-constant operand w establishes the
+			// same fact about w.
+			mark := len(atoms)
+			if has {
+				if phi, ok := a.V.(*ssa.Phi); ok {
+					rv := (Path{Blocks: blocks}).Resolve(phi)
+					if _, isC := ConstBool(rv); !isC && rv != ssa.Value(phi) {
+						e := MkAtom(rv, a.Pos)
+						contra := false
+						for _, x := range atoms {
+							if (x.V == e.V && x.Pos != e.Pos) || (byExpr && x.Contradicts(e)) {
+								contra = true
+							}
+						}
+						if contra {
+							atoms = atoms[:mark-1]
+							continue
+						}
+						atoms = append(atoms, e)
+					}
+				}
+			}
 			walk(s)
 			if has {
-				atoms = atoms[:len(atoms)-1]
+				atoms = atoms[:mark-1]
 			}
 		}
 	}
